@@ -90,6 +90,21 @@ class Desugar(ast.NodeTransformer):
     def visit_For(self, n):
         self.generic_visit(n)
         if isinstance(n.iter, (ast.Tuple, ast.List)) and 1 <= len(n.iter.elts) <= 4 and all(_is_path(e) for e in n.iter.elts) \
+                and isinstance(n.target, ast.Name) and not n.orelse:
+            # `if C: continue` followed by REST  ==  `if not C: REST`   (only here, to make the body unrollable)
+            def fold(stmts):
+                for i, st in enumerate(stmts):
+                    if isinstance(st, ast.If) and not st.orelse and len(st.body) == 1 and isinstance(st.body[0], ast.Continue) and i + 1 < len(stmts):
+                        t = st.test.operand if isinstance(st.test, ast.UnaryOp) and isinstance(st.test.op, ast.Not) else \
+                            ast.copy_location(ast.UnaryOp(op=ast.Not(), operand=st.test), st.test)
+                        new = ast.copy_location(ast.If(test=t, body=fold(stmts[i + 1:]), orelse=[]), st)
+                        return stmts[:i] + [new]
+                return stmts
+            folded = fold(list(n.body))
+            if not any(isinstance(x, (ast.Break, ast.Continue)) for s_ in folded for x in ast.walk(s_)):
+                n.body = folded
+                ast.fix_missing_locations(n)
+        if isinstance(n.iter, (ast.Tuple, ast.List)) and 1 <= len(n.iter.elts) <= 4 and all(_is_path(e) for e in n.iter.elts) \
                 and isinstance(n.target, ast.Name) and not n.orelse \
                 and not any(isinstance(x, (ast.Break, ast.Continue)) for s_ in n.body for x in ast.walk(s_)) \
                 and not any(isinstance(x, ast.Name) and x.id == n.target.id and isinstance(x.ctx, ast.Store) for s_ in n.body for x in ast.walk(s_)):
